@@ -219,7 +219,9 @@ func (s *BaseVisitor) EnterOC_QueryOptions(c *parser.OC_QueryOptionsContext) {}
 
 func (s *BaseVisitor) EnterOC_AnyCypherOption(c *parser.OC_AnyCypherOptionContext) {}
 
-func (s *BaseVisitor) EnterOC_CypherOption(c *parser.OC_CypherOptionContext) {}
+func (s *BaseVisitor) EnterOC_CypherOption(c *parser.OC_CypherOptionContext) {
+	s.newUnsupportedRuleError(c)
+}
 
 func (s *BaseVisitor) EnterOC_VersionNumber(c *parser.OC_VersionNumberContext) {}
 
